@@ -286,7 +286,8 @@ func zzC19_response() {
 	vAssume(err == nil)
 	reply := func(m *Message) {
 		nw := len(be.writes)
-		_, werr := m.Answer(2001).WriteTo(c.writer)
+		// (with a Result-Code, or without one: Answer(0), as used with Experimental-Result)
+		_, werr := m.Answer(uint32(2001 * vChoice("resultcode", 2))).WriteTo(c.writer)
 		vAssert(werr == nil && len(be.writes) == nw+1 && uint(be.writes[nw].stream) == m.MessageStream(), "an answer written through the connection goes to the stream its request arrived on")
 	}
 	m1, e1 := c.readMessage()
